@@ -61,6 +61,51 @@ fn main()
             out.case(&format!("matrixref {} {}", name, fbits(v)), &show_mat(&g.matrix()));
         }
     }
+    // liveness for EVERY pattern of direct / reference / FFI-pointer parameters of every gate that can hold a reference:
+    // the gate is built while the cells hold decoys, matrix() is called once (so that anything cached is cached), the
+    // cells are overwritten, and the matrix taken now must be the documented one at the NEW values.
+    {
+        use q1tsim::gates::{Parameter, RX, RY, RZ, U1, U2, U3, CRX, CRY, CRZ, CU1, CCRX, CCRY, CCRZ, C, Kron, H};
+        let names: [(&str, usize); 16] = [("RX", 1), ("RY", 1), ("RZ", 1), ("U1", 1), ("U2", 2), ("U3", 3), ("CRX", 1), ("CRY", 1), ("CRZ", 1),
+            ("CU1", 1), ("CCRX", 1), ("CCRY", 1), ("CCRZ", 1), ("C U3", 3), ("C C U2", 2), ("Kron U3 H", 3)];
+        let rounds = if thorough() { 12 } else { 3 };
+        for _ in 0..rounds
+        {
+            for (name, k) in names.iter()
+            {
+                for mask in 1..3u32.pow(*k as u32)
+                {
+                    // digit j of mask in base 3: 0 = direct, 1 = Rc<RefCell>, 2 = FFI pointer
+                    let kinds: Vec<u32> = (0..*k).map(|j| (mask / 3u32.pow(j as u32)) % 3).collect();
+                    let finals: Vec<f64> = (0..*k).map(|_| gate::gen_angle(&mut rng)).collect();
+                    let cells: Vec<std::rc::Rc<std::cell::RefCell<f64>>> = (0..*k).map(|_| std::rc::Rc::new(std::cell::RefCell::new(0.123))).collect();
+                    let boxes: Vec<Box<f64>> = (0..*k).map(|_| Box::new(-0.456)).collect();
+                    let ptrs: Vec<*mut f64> = boxes.into_iter().map(Box::into_raw).collect();
+                    let ps: Vec<Parameter> = (0..*k).map(|j| match kinds[j]
+                        { 0 => Parameter::Direct(finals[j]), 1 => Parameter::from_refcell(&cells[j], "p"), _ => Parameter::FFIRef(ptrs[j] as *const f64) }).collect();
+                    let p = |j: usize| ps[j].clone();
+                    let g: Box<dyn Gate> = match *name
+                    {
+                        "RX" => Box::new(RX::new(p(0))), "RY" => Box::new(RY::new(p(0))), "RZ" => Box::new(RZ::new(p(0))), "U1" => Box::new(U1::new(p(0))),
+                        "U2" => Box::new(U2::new(p(0), p(1))), "U3" => Box::new(U3::new(p(0), p(1), p(2))),
+                        "CRX" => Box::new(CRX::new(p(0))), "CRY" => Box::new(CRY::new(p(0))), "CRZ" => Box::new(CRZ::new(p(0))), "CU1" => Box::new(CU1::new(p(0))),
+                        "CCRX" => Box::new(CCRX::new(p(0))), "CCRY" => Box::new(CCRY::new(p(0))), "CCRZ" => Box::new(CCRZ::new(p(0))),
+                        "C U3" => Box::new(C::new(U3::new(p(0), p(1), p(2)))), "C C U2" => Box::new(C::new(C::new(U2::new(p(0), p(1))))),
+                        _ => Box::new(Kron::new(U3::new(p(0), p(1), p(2)), H::new()))
+                    };
+                    let _ = g.matrix();
+                    for j in 0..*k { *cells[j].borrow_mut() = finals[j]; unsafe { let q: *mut f64 = ptrs[j]; *q = finals[j]; } }
+                    let m1 = show_mat(&g.matrix());
+                    let m2 = show_mat(&g.matrix());
+                    let kinds_text: String = kinds.iter().map(|d| ['d', 'r', 'f'][*d as usize]).collect();
+                    let term = if name.starts_with("Kron") { format!("Kron U3 {} H", finals.iter().map(|v| fbits(*v)).collect::<Vec<_>>().join(" ")) }
+                        else { format!("{} {}", name, finals.iter().map(|v| fbits(*v)).collect::<Vec<_>>().join(" ")) };
+                    out.case(&format!("matrixlive {} {}", kinds_text, term), &if m1 == m2 { m1 } else { "unstable".to_string() });
+                    for q in ptrs { unsafe { drop(Box::from_raw(q)); } }
+                }
+            }
+        }
+    }
     let n = out.finish();
     eprintln!("c05: {} cases", n);
 }
